@@ -143,18 +143,34 @@ def route_stages(desc, stages):
     if route == "direct":
         return list(stages)
     at = int(route.split("@")[1])
+    if route.startswith("alias"):
+        return [k for k in stages if k == at]
     return [k for k in stages if k > at]
 
 
 def staged(desc, payload, k):
     """The graph of `desc` after the first k stages, along the route recorded in desc["route"]:
     None / "direct": the stages in one go; "reload@j" / "yreload@j": written to a dictionary (YAML text) and read back
-    after stage j (0 <= j < k), then the remaining stages.  -> (graph, original blocks)"""
+    after stage j (0 <= j < k), then the remaining stages; "alias@j": the graph after stage j, inspected after a
+    written-and-read-back copy of it went through the remaining stages.  -> (graph, original blocks)"""
     g = build_scfg(desc, payload)
     orig_blocks = dict(g.graph)
     route = desc.get("route") or "direct"
     at = -1
     how = "dict"
+    if route.startswith("alias@"):
+        # the graph after stage j, after a COPY of it (written out and read back) was restructured further: what is
+        # done to the copy must not reach the graph it was read from
+        at = int(route.split("@")[1])
+        for st in STAGES[:at]:
+            getattr(g, st)()
+        twin = reload(g, "dict")
+        try:
+            for st in STAGES[at:]:
+                getattr(twin, st)()
+        except Exception:
+            pass
+        return g, orig_blocks
     if route != "direct":
         how = "yaml" if route.startswith("y") else "dict"
         at = int(route.split("@")[1])
